@@ -135,7 +135,9 @@ class Bitmap:
         last_window = -1
         if windows is None:
             windows = []
-        self.windows = windows
+        # keep our own copy with tuple pairs: the argument may be a one-shot
+        # iterable, and its pairs may be mutable sequences
+        self.windows = [(window, bitmap) for window, bitmap in windows]
         for window, bitmap in self.windows:
             if not isinstance(window, int):
                 raise ValueError(f"bad {self.type_name} window type")
